@@ -49,6 +49,7 @@ struct Slot {
 fn serve_slot(engine: String, tier: Tier, seed: u64, first: u64, stride: u64, limit: Option<u64>) -> Result<Slot, String> {
     let mut slot = Slot { reports: Vec::new(), died: Vec::new() };
     let mut first = first;
+    let mut restarts = 0;
     for _generation in 0..10_000 {
         let mut child = spawn_worker(&engine, tier, seed, first, stride, limit);
         let pid = child.id();
@@ -65,7 +66,15 @@ fn serve_slot(engine: String, tier: Tier, seed: u64, first: u64, stride: u64, li
             let resume = report.resume_at;
             slot.reports.push(report);
             match resume {
-                Some(next) => first = next,
+                Some(next) => {
+                    // a run tainted its process: continue in a fresh one -- but when that
+                    // keeps happening the point is made, and every round costs time
+                    restarts += 1;
+                    if restarts >= 6 {
+                        return Ok(slot);
+                    }
+                    first = next
+                }
                 None => return Ok(slot),
             }
         } else {
@@ -325,8 +334,25 @@ fn scan_sources(repo: &str) -> Vec<String> {
     hits.into_iter().collect()
 }
 
+/// Scratch trees and marker files of processes that no longer exist (killed, watchdog)
+fn remove_stale_scratch() {
+    let Ok(rd) = std::fs::read_dir(crate::util::scratch_base()) else { return };
+    for e in rd.flatten() {
+        let name = e.file_name().to_string_lossy().to_string();
+        let pid = match name.strip_prefix("probe-") {
+            Some(rest) => rest.split('-').next().and_then(|p| p.parse::<u32>().ok()),
+            None => name.rsplit('-').next().and_then(|p| p.parse::<u32>().ok()),
+        };
+        let Some(pid) = pid else { continue };
+        if !Path::new(&format!("/proc/{}", pid)).exists() {
+            crate::util::remove_any(&e.path());
+        }
+    }
+}
+
 pub fn run_property(property: &str, tier: Tier, seed: u64, workers: usize, root: &str) -> i32 {
     let started = std::time::Instant::now();
+    remove_stale_scratch();
     let engines = crate::engines_of(property);
     if engines.is_empty() {
         eprintln!("no engine serves property '{property}'");
